@@ -3,9 +3,12 @@ import PV.Model.Eval
 import PV.Proofs.Subterm
 import PV.Proofs.UnionPy
 import PV.Proofs.PyEqEquiv
+import PV.Proofs.NodeCount
 /-
   C09 — analyses: free variables / coincidence, `DependencyMapper` (`deps`), flop counters.
 -/
+set_option linter.unusedTactic false
+set_option linter.unreachableTactic false
 namespace PV.C09
 open PV
 
@@ -1258,5 +1261,270 @@ example (v w : Value) (env : Env) :
       simp only [demoE, fv, fvL, List.mem_append, List.mem_cons, List.not_mem_nil] at hx
       rintro rfl; simp at hx
     simp [Env.get, Ne.symm this])
+
+/-! ### the node counter: `get_num_nodes` as coded (`c09NumNodes`, an exact cached walk) and the
+number of distinct subexpressions -/
+
+/-- **No two subterms of `e` are confusable** (decidable): among the subterms of `e`, the cache
+key of `CachedMapper` — `(type(expr), expr)`, compared with Python `==` — identifies exactly the
+structurally identical ones.  Fails when `1` / `1.0` / `True` (or `0.0` / `-0.0`) sit below
+otherwise equal parents, and for a nan constant (which is not `==` to itself). -/
+def unconfusable (e : Expr) : Bool :=
+  (c09Subterms e).all fun a => (c09Subterms e).all fun b => a.keyEq b == decide (a = b)
+
+/-- the Boolean test says what it should: for all subterms `a`, `b` of `e`: `keyEq a b ↔ a = b` -/
+theorem unconfusable_iff (e : Expr) : unconfusable e = true ↔ C09Unconf e := by
+  simp only [unconfusable, List.all_eq_true, beq_iff_eq, C09Unconf]
+  constructor
+  · intro h a ha b hb
+    have := h a ha b hb
+    by_cases hab : a = b <;> simp_all
+  · intro h a ha b hb
+    by_cases hab : a = b
+    · simp [hab, (h b hb b hb).2 rfl]
+    · have : a.keyEq b ≠ true := fun hk => hab ((h a ha b hb).1 hk)
+      simp [hab, Bool.eq_false_iff.2 this]
+
+example : unconfusable (.nary .sum [.const (.int 1), .const (.bool true), .const (.flt "1.0" 1 1)]) = true ∧
+    unconfusable (.nary .sum [.un .bnot (.const (.int 1)), .un .bnot (.const (.bool true))]) = false := by
+  decide
+
+/-- the number of DISTINCT subexpressions of `e` (structural identity, the Python type of every
+constant included): independent of any traversal order, cache or counter -/
+def numDistinct (e : Expr) : Nat := (c09Subterms e).toFinset.card
+
+/-- the same number, computed by erasing duplicates from the list of subterms -/
+theorem numDistinct_eq_dedup_length (e : Expr) : numDistinct e = (c09Subterms e).dedup.length :=
+  List.card_toFinset _
+
+/-- the reading of a node-counter result: with a fresh cache, `n` keys were stored -/
+theorem numNodes_keys {e : Expr} {n : Nat} (h : c09NumNodes e = .ok n) :
+    ∃ keys, c09NumNodesKeys e = .ok (n, keys) ∧ keys.length = n ∧ e.hasList = false ∧
+      ∀ k ∈ keys, k ∈ c09Subterms e ∧ k.isRejectedConst = false := by
+  unfold c09NumNodes at h
+  split at h
+  · rename_i m keys hk
+    simp only [Except.ok.injEq] at h
+    subst h
+    refine ⟨keys, hk, ?_⟩
+    unfold c09NumNodesKeys at hk
+    split at hk
+    · simp at hk
+    · rename_i hl
+      obtain ⟨new, rfl, hlen, hn⟩ := c09Shape e [] _ _ hk
+      exact ⟨by simpa using hlen, by simpa using hl, by simpa using hn⟩
+  · simp at h
+
+/-- **The counted nodes, exactly.**  On a tree without confusable subterms the keys stored by the
+cached walk are the subterms of the tree, each exactly once. -/
+theorem numNodes_keys_exact {e : Expr} (hU : unconfusable e = true) {n : Nat} {keys : List Expr}
+    (h : c09NumNodesKeys e = .ok (n, keys)) :
+    keys.Nodup ∧ ∀ s, s ∈ keys ↔ s ∈ c09Subterms e := by
+  have hU' := (unconfusable_iff e).1 hU
+  unfold c09NumNodesKeys at h
+  split at h
+  · simp at h
+  · obtain ⟨new, rfl, -, hn⟩ := c09Shape e [] _ _ h
+    have hnd := c09Nodup e (fun s hs => (hU' s hs s hs).2 rfl) [] _ _ List.nodup_nil h
+    have hfull := (c09Full hU' e (self_mem_c09Subterms e) [] _ _ (by simp)
+      (by intro k hk; simp at hk) h).2
+    exact ⟨hnd, fun s => ⟨fun hs => (hn s (by simpa using hs)).1, hfull s⟩⟩
+
+example : (c09NumNodesKeys (.bin .lshift (.var "x") (.nary .sum [.var "x", .const (.int 1)]))).toOption.map
+    (·.2) = some [.var "x", .const (.int 1), .nary .sum [.var "x", .const (.int 1)],
+      .bin .lshift (.var "x") (.nary .sum [.var "x", .const (.int 1)])] := by decide
+
+/-- **The node counter equals the number of distinct subexpressions** (the property's sentence).
+If no two subterms of `e` are confusable and the walk reaches no rejected constant (a string or
+`None` outside a slice) and `e` is hashable (no Python list inside), then `get_num_nodes(e)`
+returns exactly the number of distinct subterms of `e`. -/
+theorem numNodes_eq_distinct (e : Expr) (hU : unconfusable e = true) (hL : e.hasList = false)
+    (hOK : walkOK [] e = true) : c09NumNodes e = .ok (numDistinct e) := by
+  obtain ⟨n, keys, h⟩ := c09CountWalk_ok_of e ((walkOK_nil_iff e).1 hOK) []
+  have hk : c09NumNodesKeys e = .ok (n, keys) := by simp [c09NumNodesKeys, hL, h]
+  obtain ⟨hnd, hmem⟩ := numNodes_keys_exact hU hk
+  obtain ⟨new, hnew, hlen, -⟩ := c09Shape e [] _ _ h
+  have hcard : numDistinct e = n := by
+    unfold numDistinct
+    rw [← List.toFinset.ext hmem, List.toFinset_card_of_nodup hnd]
+    simpa [hnew] using hlen
+  simp [c09NumNodes, hk, hcard]
+
+example : c09NumNodes (.nary .sum [.var "x", .bin .pow (.var "x") (.const (.int 2)),
+    .const (.int 2), .const (.flt "2.0" 2 1)]) = .ok 5 := by decide
+example : unconfusable (.nary .sum [.var "x", .bin .pow (.var "x") (.const (.int 2)),
+    .const (.int 2), .const (.flt "2.0" 2 1)]) = true := by decide
+
+/-- **Upper bound, any well-formed tree** (confusable or not): no node is counted twice, so the
+count never exceeds the number of structurally distinct subterms. -/
+theorem numNodes_le_distinct {e : Expr} (hwf : e.wf = true) {n : Nat}
+    (h : c09NumNodes e = .ok n) : n ≤ numDistinct e := by
+  obtain ⟨keys, hk, hlen, hL, hn⟩ := numNodes_keys h
+  have hw : c09CountWalk e [] = .ok (n, keys) := by
+    simpa [c09NumNodesKeys, hL] using hk
+  have hnd := c09Nodup e (fun s hs => keyEq_refl s (c09Subterms_wf hwf hs)) [] _ _ List.nodup_nil hw
+  unfold numDistinct
+  rw [← hlen, ← List.toFinset_card_of_nodup hnd]
+  exact Finset.card_le_card (fun k hk' => by
+    simp only [List.mem_toFinset] at hk' ⊢
+    exact (hn k hk').1)
+
+/-- **Lower bound, any well-formed tree**: every subterm has a representative among the counted
+nodes that is `==` to it.  Hence any family of subterms that are pairwise not `==` (in particular
+a system of representatives of the `==`-classes) is at most as large as the count. -/
+theorem numNodes_ge_eqClasses {e : Expr} (hwf : e.wf = true) {n : Nat}
+    (h : c09NumNodes e = .ok n) (D : List Expr) (hD : ∀ d ∈ D, d ∈ c09Subterms e)
+    (hP : D.Pairwise (fun a b => a.pyEq b = false)) : D.length ≤ n := by
+  obtain ⟨keys, hk, hlen, hL, hn⟩ := numNodes_keys h
+  have hw : c09CountWalk e [] = .ok (n, keys) := by
+    simpa [c09NumNodesKeys, hL] using hk
+  have hrep := (c09Rep e hwf [] _ _ (by simp) (by intro k hk; simp at hk) hw).2
+  have hDwf : ∀ d ∈ D, d.wf = true := fun d hd => c09Subterms_wf hwf (hD d hd)
+  have hDnd : D.Nodup := by
+    refine hP.imp_of_mem ?_
+    intro a b ha _ hab heq
+    subst heq
+    rw [pyEq_refl a (hDwf a ha)] at hab
+    exact Bool.noConfusion hab
+  rw [← hlen]
+  refine length_le_of_reps (fun r d => r.pyEq d = true) hDnd (fun d hd => hrep d (hD d hd)) ?_
+  intro r hr d1 hd1 d2 hd2 h1 h2
+  by_contra hne
+  have hrwf : r.wf = true := c09Subterms_wf hwf (hn r hr).1
+  have h12 : d1.pyEq d2 = true :=
+    pyEq_trans d1 r d2 (hDwf d1 hd1) hrwf (hDwf d2 hd2)
+      (pyEq_symm r d1 hrwf (hDwf d1 hd1) h1) h2
+  have h21 : d2.pyEq d1 = true := pyEq_symm d1 d2 (hDwf d1 hd1) (hDwf d2 hd2) h12
+  rcases pairwise_or_flip hP d1 hd1 d2 hd2 hne with h | h
+  · rw [h12] at h; exact Bool.noConfusion h
+  · rw [h21] at h; exact Bool.noConfusion h
+
+/-- the lower bound with the classes counted by the model's own `dedupBy`: the number of
+subterms left when duplicates under Python `==` alone (no type tag) are removed -/
+theorem numNodes_ge_dedup_pyEq {e : Expr} (hwf : e.wf = true) {n : Nat}
+    (h : c09NumNodes e = .ok n) : (dedupBy Expr.pyEq (c09Subterms e)).length ≤ n :=
+  numNodes_ge_eqClasses hwf h _ (dedupBy_pairwise _ _).2 (dedupBy_pairwise _ _).1
+
+/-- both bounds at once: between the coarsest (`==` alone) and the finest (structure and constant
+types) reading of "distinct" -/
+theorem numNodes_between {e : Expr} (hwf : e.wf = true) {n : Nat} (h : c09NumNodes e = .ok n) :
+    (dedupBy Expr.pyEq (c09Subterms e)).length ≤ n ∧ n ≤ numDistinct e :=
+  ⟨numNodes_ge_dedup_pyEq hwf h, numNodes_le_distinct hwf h⟩
+
+/-- on the confusable witness below: 3 ≤ 3 ≤ 5 -/
+example : (dedupBy Expr.pyEq (c09Subterms (.cmp .ne (.nary .sum [.const (.flt "2.0" 2 1)])
+      (.nary .sum [.const (.int 2)])))).length ≤ 3 ∧ 3 ≤ numDistinct (.cmp .ne
+      (.nary .sum [.const (.flt "2.0" 2 1)]) (.nary .sum [.const (.int 2)])) :=
+  numNodes_between (by decide) (by decide)
+
+/-- `Comparison(Sum((2.0,)), "!=", Sum((2,)))`: the second `Sum` is a cache hit (it is `==` to the
+first and of the same class), so the walk never reaches the int `2` -/
+def confusableE : Expr :=
+  .cmp .ne (.nary .sum [.const (.flt "2.0" 2 1)]) (.nary .sum [.const (.int 2)])
+
+/-- **Confusable trees: neither bound is the count.**  On `confusableE` the counter says 3, while
+there are 5 structurally distinct subterms and 4 classes under the cache-key equality
+`(type, ==)` (what the dedup-after-the-walk definition `numNodes` answers) — only the classes under
+`==` alone are 3.  On `Sum((2, 2.0))` the counter says 3 = number of distinct subterms, while the
+classes under `==` alone are 2.  So on confusable trees the count is not a function of any of
+the three notions of "distinct". -/
+theorem numNodes_confusable_cex :
+    c09NumNodes confusableE = .ok 3 ∧ numDistinct confusableE = 5 ∧
+    numNodes confusableE = .ok 4 ∧
+    (dedupBy Expr.pyEq (c09Subterms confusableE)).length = 3 ∧
+    unconfusable confusableE = false ∧ confusableE.wf = true ∧
+    (let e2 := Expr.nary .sum [.const (.int 2), .const (.flt "2.0" 2 1)]
+     c09NumNodes e2 = .ok 3 ∧ numDistinct e2 = 3 ∧
+       (dedupBy Expr.pyEq (c09Subterms e2)).length = 2 ∧ unconfusable e2 = true) := by
+  have hold : numNodes confusableE = .ok 4 := by
+    simp [numNodes, confusableE, Expr.hasList, Expr.hasListL, walk, walkL, wrapWalk, leafWalk,
+      bind, Except.bind, pure, Except.pure, Expr.kind]
+    decide
+  refine ⟨by decide, by decide, hold, by decide, by decide, by decide, ?_⟩
+  exact ⟨by decide, by decide, by decide, by decide⟩
+
+/-- the counted nodes of `confusableE`, in `post_visit` order: the float, the first `Sum`, the
+comparison -/
+example : c09NumNodesKeys confusableE =
+    .ok (3, [.const (.flt "2.0" 2 1), .nary .sum [.const (.flt "2.0" 2 1)], confusableE]) := by
+  decide
+
+/-- **Why "unconfusable" includes `a == a`.**  Two nan constants are never a cache hit (each
+occurrence is its own Python object, and nan is not `==` to itself), so `Sum((nan, nan))` counts
+3 nodes although there are only 2 structurally distinct subterms: the upper bound needs
+well-formedness. -/
+theorem numNodes_nan_cex :
+    let e := Expr.nary .sum [.const (.flt "nan" 0 0), .const (.flt "nan" 0 0)]
+    c09NumNodes e = .ok 3 ∧ numDistinct e = 2 ∧ e.wf = false ∧ unconfusable e = false := by
+  exact ⟨by decide, by decide, by decide, by decide⟩
+
+/-- **What the counter can raise.**  `TypeError` exactly when a Python list occurs in the tree
+(the first key is unhashable); otherwise only the rejection of a string / `None` constant, and
+that only if such a constant is a subterm. -/
+theorem numNodes_error {e : Expr} {err : DepErr} (h : c09NumNodes e = .error err) :
+    (err = .unhashable ∧ e.hasList = true) ∨
+    (err = .foreign ∧ e.hasList = false ∧ ∃ s ∈ c09Subterms e, s.isRejectedConst = true) := by
+  unfold c09NumNodes c09NumNodesKeys at h
+  cases hL : e.hasList
+  · right
+    simp only [hL, Bool.false_eq_true, if_false] at h
+    rcases c09CountWalk_total e [] with ⟨n, c', hw⟩ | hw
+    · simp [hw] at h
+    · simp only [hw, Except.error.injEq] at h
+      refine ⟨h.symm, rfl, ?_⟩
+      by_contra hno
+      obtain ⟨n, c', hok⟩ := c09CountWalk_ok_of e (fun s hs => by
+        by_contra hr
+        exact hno ⟨s, hs, by simpa using hr⟩) []
+      rw [hok] at hw
+      cases hw
+  · left
+    simp only [hL, if_true, Except.error.injEq] at h
+    exact ⟨h.symm, rfl⟩
+
+example : c09NumNodes (.nary .sum [.var "x", .list [.var "y"]]) = .error .unhashable := by decide
+example : c09NumNodes (.nary .sum [.var "x", .const (.str "abc")]) = .error .foreign := by decide
+/-- the `None` parts of a slice are absent children, not rejected constants -/
+example : c09NumNodes (.slice [.var "x", .const .none, .const .none]) = .ok 2 := by decide
+
+/-- **Relation to the previous definition.**  `numNodes` walks the whole tree without a cache and
+removes duplicates under the cache-key equality afterwards.  On every tree without confusable
+subterms the two definitions agree — same count, same exception. -/
+theorem numNodes_old_eq (e : Expr) (hU : unconfusable e = true) : numNodes e = c09NumNodes e := by
+  have hU' := (unconfusable_iff e).1 hU
+  cases hL : e.hasList
+  · cases hOK : walkOK [] e
+    · -- a rejected constant is a subterm; without confusable subterms it is reached
+      have hold : numNodes e = .error .foreign := by
+        simp [numNodes, hL, walk_total, hOK, okIf]
+      rw [hold]
+      rcases c09CountWalk_total e [] with ⟨n, keys, hw⟩ | hw
+      · exfalso
+        have hk : c09NumNodesKeys e = .ok (n, keys) := by simp [c09NumNodesKeys, hL, hw]
+        obtain ⟨-, hmem⟩ := numNodes_keys_exact hU hk
+        obtain ⟨new, hnew, -, hn⟩ := c09Shape e [] _ _ hw
+        have hall : ∀ s ∈ c09Subterms e, s.isRejectedConst = false := fun s hs =>
+          (hn s (by simpa [hnew] using (hmem s).2 hs)).2
+        rw [(walkOK_nil_iff e).2 hall] at hOK
+        exact Bool.noConfusion hOK
+      · simp [c09NumNodes, c09NumNodesKeys, hL, hw]
+    · rw [numNodes_eq_distinct e hU hL hOK]
+      have hR : ∀ a ∈ c09PostNodes e, ∀ b ∈ c09PostNodes e, (a.keyEq b = true ↔ a = b) :=
+        fun a ha b hb => hU' a (mem_c09PostNodes.1 ha) b (mem_c09PostNodes.1 hb)
+      have hlen := dedupBy_length_of_eq hR
+      have hset : (c09PostNodes e).toFinset = (c09Subterms e).toFinset :=
+        List.toFinset.ext (fun _ => mem_c09PostNodes)
+      simp only [numNodes, hL, Bool.false_eq_true, if_false, walk_total, hOK, okIf, if_true]
+      show (Except.ok (walkSpec [] false e) >>= fun ev =>
+        pure (dedupBy Expr.keyEq ((ev.filter (·.post)).map (·.node))).length) = _
+      simp only [bind, Except.bind, pure, Except.pure]
+      rw [show (List.map (fun x => x.node) (List.filter (fun x => x.post) (walkSpec [] false e)))
+        = c09PostNodes e from rfl, hlen, hset]
+      rfl
+  · simp [numNodes, c09NumNodes, c09NumNodesKeys, hL]; rfl
+
+example : numNodes (.nary .sum [.var "x", .bin .pow (.var "x") (.const (.int 2)),
+    .const (.int 2), .const (.flt "2.0" 2 1)]) = .ok 5 := by
+  rw [numNodes_old_eq _ (by decide)]; decide
 
 end PV.C09
